@@ -13,8 +13,9 @@ Two families of cases.
              tokens that are fresh, one rotation old, expired, issued by another node, issued to another address or
              another key, sniffed from an honest client, replayed verbatim, or garbage; values that are valid,
              oversized, too many, forged (victim's key, random / bit-flipped signature), signed by a foreign key,
-             genuine-but-older (rollback), in older / equal / newer versions.  One adversary identity also *answers*
-             find-requests for chosen keys with crafted value lists (read path).
+             genuine-but-older (rollback), in older / equal / newer versions.  The adversary identities also *answer*
+             find-requests for armed keys with crafted value lists (read path; keys next to the adversary's node id so
+             that honest lookups ask it first).
              Oracle = lock-step model per honest node fed from observation only: the tokens a node issued are read off
              the find-responses leaving it (to which address, for which requester key, under which rotation count);
              every store / store-peer request entering a node is decoded and verified by the harness' own codec and
@@ -22,7 +23,26 @@ Two families of cases.
 ``storage``  a direct history on one real ``Storage`` (put / clean / get under the virtual clock) with several ids per
              key (among them id == key, which ``put`` sorts last), versions and max_age values.
 
-Independent oracles (``first_only=False``), each with its own key.
+Independent oracles (``first_only=False``), each with its own key:
+
+  store_accepted_without_valid_token:<why>       Storage changed for a store-request whose token the model does not hold
+  store_peer_accepted_without_valid_token:<why>  valid (<why> = expired_token | token_of_other_node | unknown_token |
+                                                 token_issued_to_other_address | .._other_key | .._other_requester |
+                                                 bad_request_signature | undecodable_request)
+  oversized_value_stored[:<path>]                a node holds a value longer than MAX_ENTRY_SIZE (path = how it got there)
+  too_many_values_stored                         one request changed more than MAX_VALUES_IN_STORE values
+  stored_version_decreased                       per (key, signer id) the stored version went down
+  find_returned_unverifiable_signature           find_values reported (data, pk) that no delivered value backs up
+  find_did_not_return_highest_version            a signer's highest accepted version (or the signer) is missing
+  expired_value_survives_maintenance             age > max_age right after value_maintenance / Storage.clean()
+  store_peer_under_foreign_mid                   ``store`` gained an entry under a key that is not the requester's mid
+
+Findings on the unchanged tree (both reproduced by the quick tier):
+  * expired_value_survives_maintenance - ``Storage.clean()`` stops at the first unexpired value from the tail; values
+    with id == key are sorted last and values may carry different max_age, so expired ones in front of it survive.
+  * oversized_value_stored:find_result_cached_locally - ``_find`` caches the values of a lookup through
+    ``store_on_nodes``, which also adds them to the client's own Storage (``len(nodes) < TARGET_NODES``) without the
+    size check of ``on_store_request`` / ``_store``: one find-response with a 171+ byte value plants it on the client.
 """
 from __future__ import annotations
 
@@ -57,7 +77,7 @@ RULE = ("net case = (seed, number of honest nodes 6..12, network knobs {loss, du
         "keys: random, the mid of an honest signer (id == key), ids next to the adversary's node id (so that the adversary "
         "is asked first). The first cases are hand-directed scripts (fault-free, lossy, long) that walk through every token "
         "and value class; the rest is drawn from random.Random('c15/<seed>'). storage case = explicit list of put(key, id in "
-        "{None, key itself, a, b}, data, version, max_age) / tick / clean / get. Non-trivial net case = at least one request "
+        "{None, key itself, a, b, c}, data, version, max_age) / tick / clean / get. Non-trivial net case = at least one request "
         "decided by the model; distinct by (request kind, model verdict of the token, source kind, value kinds, changed?), "
         "find outcomes by (number of signers, forged offered?, older+newer offered?); storage histories by final shape.")
 COMPONENTS = {"real": ["ipv8.dht.discovery.DHTDiscoveryCommunity / ipv8.dht.community.DHTCommunity handlers, crawl, timers "
@@ -242,7 +262,7 @@ def _directed(variant: int, seed: int, tier: str) -> dict:  # noqa: PLR0915
 VAL_KINDS = [["u", 1], ["u", 40], ["u", 169], ["u", 170], ["u", 171], ["s", 0, "base", 5], ["s", 0, "old", 5],
              ["s", 0, "same", 5], ["s", 0, "new", 5], ["s", 1, "new", 3], ["s", 1, "old", 3], ["forged", 0, "hi"],
              ["forged", 1, "lo"], ["foreign", 0], ["foreign", 1], ["flip", 0], ["rollback", 0], ["rollback", 1],
-             ["latest", 0], ["big_u"], ["big_s", 0], ["many", 9], ["many", 8], ["many", 20], ["junk"], ["trunc", 0]]
+             ["latest", 0], ["big_u"], ["big_s", 0], ["many", 9], ["many", 8], ["many", 20], ["junk"], ["trunc", 0], ["empty"]]
 TOK_KINDS = ["newest", "newest", "newest", "fresh", "fresh", "oldest", "oldest", "other_node", "other_id", "sniff:0",
              "sniff:1", "garbage"]
 SRC_KINDS = ["own", "own", "own", "own", "peer", "unused", "client:0", "client:1"]
@@ -1343,10 +1363,7 @@ def _exec_storage(c: Case, case: dict) -> None:  # noqa: C901
                 c.probe("storage_clean_removed_expired")
         elif kind == "get":
             key = keys[op[1] % 3]
-            got = st.get(key, starting_point=int(op[2]), limit=op[3])
-            stored = [v.data for v in st.items[key]] if key in st.items else []
-            if any(g not in stored for g in got):
-                c.violate("read", "storage_get_returned_unstored_data", f"get returned {got!r}, stored {stored!r}")
+            st.get(key, starting_point=int(op[2]), limit=op[3])      # exercised only (must not disturb the history)
     shape = sorted((len(lst), sum(1 for v in lst if v.id == k), len({v.max_age for v in lst})) for k, lst in st.items.items())
     c.nontrivial(f"storage/{shape}")
     c.world.trace.event("c15_storage", None, len(case["ops"]), shape)
